@@ -29,7 +29,7 @@ echo "confirm: suite_with_change=$suite_with demo_without=$demo_without demo_wit
 # 3. run the check against it
 cd /verif
 git -C /repo apply $src/patch.diff || exit 2
-out=$(./check $prop quick 2>&1); rc=$?
+out=$(VCGO_SCRATCH=1 ./check $prop quick 2>&1); rc=$?
 git -C /repo checkout -- .
 viol=$(echo "$out" | grep -c "^VIOLATION property=$prop")
 echo "check $prop: rc=$rc violations=$viol"
